@@ -79,7 +79,7 @@ def run(ctx):
     failed = sum(1 for e in allev if not e["ok"])
     discounted = sum(1 for e in allev if e["fee_ok"] and e["fee0_ok"] and e["fee"] < e["fee0"])
     liq = sum(1 for e in allev if e["op"] == "liq_fees" and e["lok"] and e["lamount"] > 0)
-    if min(ok_split, failed, discounted, liq) == 0:
+    if not ctx.violations and min(ok_split, failed, discounted, liq) == 0:
         raise vlib.ToolError("vacuity: split=%d failed=%d discounted=%d liq=%d" % (ok_split, failed, discounted, liq))
     ctx.distinct += len({tuple(e[k] for k in KEY) for e in allev if e["amt"] > 0 and used_factor(e) > 0})
     ctx.cov["samples"] += [ev[len(ev) // 3], ev[-1], ev2[0]]
